@@ -48,6 +48,8 @@ def default_params():
         refuse=[0, 0],              # first N connection attempts refused
         gets="early",               # deferred API: when get_*() are requested: early | late | tape
         third=None,                 # None | "before" | "after": a raw third client claims the nameplate
+        hs_fail=[0, 0],             # budget of reconnections whose WebSocket negotiation fails
+        extra_msg_gets=0,           # deferred API: additional concurrently outstanding get_message() chains
         w_progress=10, w_app=6, w_drop=1, w_adv=2,
         settle_after_close=True,
     )
@@ -86,6 +88,8 @@ class Rec:
         self.helper = [None, None]
         self.get_after_closed = [[], []]
         self.third = None
+        self.xops = collections.Counter()
+        self.delivered = []               # (side index, conn#, server message, step) as delivered to clients
         self.error_injected = None
         self.phase = "tape"
         self.stable_snapshot = None
@@ -156,7 +160,7 @@ class Rec:
 
 def _tracer(rec, i, machine):
     def tr(old_state, input, new_state):
-        rec.trans[i].append((machine, old_state, input, new_state))
+        rec.trans[i].append((machine, old_state, input, new_state, rec.step))
         return None
     return tr
 
@@ -280,8 +284,19 @@ def _run(P, rec, W, tape, on_step, setup, at_stable):
             kw["delegate"] = Delegate(rec, i)
         w = W.create(P["appids"][i], **kw)
         w._sim_svc.refuse = P["refuse"][i]
+        w._sim_svc.hs_fail = P["hs_fail"][i]
         ws.append(w)
         _install_trace(rec, i, w)
+    def on_deliver(c, payload):
+        try:
+            msg = json.loads(payload)
+        except Exception:
+            return
+        if msg.get("type") == "ack":
+            return
+        i = W.services.index(c.svc) if c.svc in W.services else None
+        rec.delivered.append((i, c.n, msg, rec.step))
+    W.on_deliver = on_deliver
     if setup is not None:
         setup(rec)
     gets_pending = [[], []]
@@ -317,6 +332,12 @@ def _run(P, rec, W, tape, on_step, setup, at_stable):
     third = None
     if P["third"]:
         intents.append(("third",))
+    if mode == "deferred":
+        for i in range(2):
+            for n_ in range(P["extra_msg_gets"]):
+                intents.append(("get", i, "msg", n_))
+    for n_, (side_, op_) in enumerate(P.get("extra_ops") or []):
+        intents.append(("xop", side_, op_, n_))
     nsent = [0, 0]
     input_stage = [0, 0]
     drops_left = [P["drops"]]
@@ -349,6 +370,12 @@ def _run(P, rec, W, tape, on_step, setup, at_stable):
                 return False
             return True
         if k == "get":
+            return True
+        if k == "xop":
+            if it[2] in ("refresh", "npc", "wc", "np_again", "words_again", "wl"):
+                return rec.helper[it[1]] is not None
+            if it[2] in ("code_again", "alloc_again"):
+                return rec.close_called[it[1]] is None
             return True
         if k == "third":
             if P["third"] == "before":
@@ -392,6 +419,34 @@ def _run(P, rec, W, tape, on_step, setup, at_stable):
                     intents.append(("close", it[1], None)) if ("close", it[1], None) not in intents else None
             elif k == "get":
                 _request_get(rec, it[1], it[2])
+            elif k == "xop":
+                i_, op = it[1], it[2]
+                h = rec.helper[i_]
+                rec.xops[op] += 1
+                if op == "derive":
+                    ws[i_].derive_key("purpose", 16)
+                elif op == "refresh":
+                    h.refresh_nameplates()
+                elif op == "npc":
+                    h.get_nameplate_completions("")
+                elif op == "wc":
+                    h.get_word_completions("pu")
+                elif op == "wl":
+                    h.when_wordlist_is_available()
+                elif op == "np_again":
+                    h.choose_nameplate("9")
+                elif op == "words_again":
+                    h.choose_words("purple-sausages")
+                elif op == "code_again":
+                    ws[i_].set_code("9-again-again")
+                elif op == "alloc_again":
+                    ws[i_].allocate_code(2)
+                elif op == "send":
+                    m = b"xop-%d" % it[3]
+                    ws[i_].send_message(m)
+                    rec.sent[i_].append(m)
+                elif op == "close":
+                    rec.do_close(i_)
             elif k == "third":
                 nonlocal third
                 np_ = P["codes"][0].split("-")[0]
@@ -463,9 +518,12 @@ def _run(P, rec, W, tape, on_step, setup, at_stable):
     while not tape.exhausted() and rec.step < max_steps:
         rec.step += 1
         choices = []
-        for e in W.enabled(mailbox_faults=drops_left[0] > 0):
+        for e in W.enabled(mailbox_faults=True):
             if e[0] == "mb.drop":
-                choices.append((P["w_drop"], e))
+                if drops_left[0] > 0:
+                    choices.append((P["w_drop"], e))
+            elif e[0] == "mb.hsfail":
+                choices.append((P["w_drop"] + 2, e))
             else:
                 choices.append((P["w_progress"], e))
         for it in intents:
@@ -497,6 +555,8 @@ def _run(P, rec, W, tape, on_step, setup, at_stable):
                 if e[0] == "mb.drop":
                     drops_left[0] -= 1
                     note_drop(e[1])
+                if e[0] == "mb.hsfail":
+                    rec.adv["hsfail"] += 1
                 W.do(e, W.arg_for(e, tape))
         except Exception as ex:
             rec.escaped.append((e[0], ex, failure.Failure()))
